@@ -77,13 +77,21 @@ T = [
 ("C36",2,"core","TestSeedC36_2","two lazy copies; the first unshares when the count drops to zero","missed","C36.6 (added): leaving a shared counter is followed by a fresh counter on every path"),
 ("C43",1,"core","TestSeedC43_1","container default and concurrent Get of a missing member (-race)","caught","C43.1 lockset: write under the read lock"),
 ("C43",2,"core","TestSeedC43_2","a concurrent closure doing x += 1 on a shared slot (-race)","caught","C43.1 lockset: shared slot written without its lock"),
+# fourth round (second look at properties whose first seeds were all caught, and the two not seeded before)
+("R4-C03",1,"db19","TestDemoR4C03_1$","10000 writes in one transaction, the exception caught, then Complete","missed","C03.9 (added): the write limit aborts before it refuses"),
+("R4-C03",2,"db19","TestDemoR4C03_2$","update & update through a stale offset, error swallowed, different record lengths","missed by C03 (caught by C06.7)","C03.12 (C06.7 added to C03): index mutations run under recover→Abort→re-panic"),
+("R4-C03",3,"builtin","TestDemoR4C03_3$","a commit that fails on a conflict followed by a second Complete or Rollback","missed","C03.10 / C42.6 (added): 'completed' stored only on the success edge of the underlying Complete, 'aborted' before a failure is raised"),
+("R4-C02",1,"builtin","TestDemoR4C02_1$","an update transaction with a lookup-strategy join open that writes to the looked-up table and reads on","missed","C02.10 (added): every use of the join lookup cache excludes updatable transactions"),
+("R4-C02",2,"db19","TestDemoR4C02_2$","an iteration opened before the transaction's first write to a fully persisted index","missed by C02 (caught by C01.4)","C02.11 (C01.4 added to C02): SimpleIter only for read transactions"),
+("R4-C42",1,"builtin","TestDemoR4C42_1$","a block that throws after the checker already aborted its transaction (conflict/timeout)","missed","C42.7 / C03.11 (added): CheckCo.Abort queues the abort on every path"),
+("R4-C42",2,"builtin","TestDemoR4C42_2$","a block left with break or continue","caught","C42.2 scenarios"),
 ]
 conf = {}
 for log in ("/tmp/seed/confirm.log", "/tmp/seed/confirm2.log", "/tmp/seed/confirm3.log", "/tmp/seed/confirm4.log", "/tmp/seed/confirm4a.log", "/tmp/seed/confirm4b.log", "/tmp/seed/confirm5.log"):
     if not os.path.exists(log): continue
     cur = None
     for l in open(log):
-        m = re.match(r"### (C\d+)-(\d+)", l)
+        m = re.match(r"### ((?:R\d-)?C\d+)-(\d+)", l)
         if m: cur = (m.group(1), int(m.group(2))); continue
         if l.startswith("{") and cur:
             try: conf[cur] = json.loads(l)
@@ -102,14 +110,14 @@ for (pid, k, pkg, run, needs, first, by) in T:
     for f in ("patch.diff", "demo_test.go", "notes.md"):
         if os.path.exists(os.path.join(src, f)): shutil.copy(os.path.join(src, f), os.path.join(dst, f if f != "demo_test.go" else "demo_test.go.txt"))
     meta = {
-        "property": pid, "seed": k,
+        "property": pid.split("-")[-1], "seed": k, "round": (pid.split("-")[0] if "-" in pid else "1-3"),
         "origin": "written by an independent sub-agent that was given only the property text and a scratch worktree",
         "needs_to_manifest": needs,
         "demo": {"package_dir": pkg, "command": f"go test -vet=off -count=1 -run '{run}' ./{pkg}/", "file": "demo_test.go.txt (copy into the package directory as *_test.go; packages core/builtin/dbms also need empty dbms/server.crt and dbms/server.key)"},
         "confirmed_by_me": {"what_i_ran": "tools/confirm_seed.sh in a scratch worktree of /repo HEAD: demo without the change, git apply, go build, demo with the change, stable baseline (829 tests) with the change", **c},
         "verdict_of_the_checks_when_first_run": first,
         "caught_by": by,
-        "how_to_rerun_the_checks": f"tools/seedrun.sh seeded/{pid}-{k}/patch.diff {pid}   (also kept as gsv/mutants/{pid}/seed-{k}.mut)",
+        "how_to_rerun_the_checks": f"tools/seedrun.sh seeded/{pid}-{k}/patch.diff {pid.split('-')[-1]}   (also kept as a seed-*.mut under gsv/mutants/{pid.split('-')[-1]}/)",
     }
     json.dump(meta, open(os.path.join(dst, "meta.json"), "w"), indent=1)
     n += 1
